@@ -15,6 +15,7 @@
 // Target c30_ring_dfs (opt mode=dfs) enumerates complete schedule trees depth first instead of sampling them.
 #include "verif.hpp"
 #include "sched.hpp"
+#include "sched_dfs.hpp"
 
 #include <memory>
 
@@ -415,7 +416,6 @@ namespace {
     // ------------------------------------------------------------------------------------------ run
     void run( const Case& c, verif::Report& rep )
     {
-        auto& session = verif::Session::get();
         if ( c.pushes + c.pops == 0 && c.dfs )
         {
             rep.label( "dfs-padding" );
@@ -466,13 +466,17 @@ namespace {
                 break;
         }
         rep.nontrivial = nontrivial != 0;
-        session.classes[ "dfs-schedules-executed" ] += n;
-        session.classes[ "dfs-schedules-nontrivial" ] += nontrivial;
-        session.classes[ "dfs-trees-completed" ] += 1;
+        verif::sched::tree_completed( n, nontrivial );
         rep.label( c.bound >= 0 ? verif::cat( "dfs-tree-bounded-", c.bound, "-switches" ) : std::string( "dfs-tree-unbounded" ) );
     }
 
     // ------------------------------------------------------------------------------------------ generators
+    // a schedule entry: 0 (go on) half of the time, else 1..3; shrinks towards 0
+    rc::Gen< std::uint8_t > gen_choice()
+    {
+        return rc::gen::map( verif::range< int >( 0, 9 ), []( int v ) { return static_cast< std::uint8_t >( v < 5 ? 0 : v < 8 ? 1 : v - 6 ); } );
+    }
+
     rc::Gen< Case > gen_random()
     {
         return rc::gen::mapcat( verif::range< int >( 1, 4 ), []( int S ) {
@@ -482,7 +486,7 @@ namespace {
                 rc::gen::set( &Case::fill, verif::range< int >( 0, S ) ), rc::gen::set( &Case::pushes, verif::range< int >( 1, 4 ) ),
                 rc::gen::set( &Case::pops, verif::range< int >( 1, 4 ) ),
                 rc::gen::set( &Case::sched,
-                    rc::gen::container< std::vector< std::uint8_t > >( rc::gen::weightedElement< std::uint8_t >( { { 5, 0 }, { 3, 1 }, { 1, 2 }, { 1, 3 } } ) ) ) );
+                    rc::gen::container< std::vector< std::uint8_t > >( gen_choice() ) ) );
         } );
     }
 
@@ -516,35 +520,20 @@ namespace {
                                 else
                                     add( S, 0, first, rot, fill, pu, po, bound );
                     }
+        // heavy trees first and next to each other, so that dealing them round robin balances the workers
+        std::stable_sort( all.begin(), all.end(), []( const Case& a, const Case& b ) {
+            const int wa = ( a.model == 0 ? 100 : 0 ) + a.pushes + a.pops, wb = ( b.model == 0 ? 100 : 0 ) + b.pushes + b.pops;
+            return wa > wb;
+        } );
         return all;
     }
 
     rc::Gen< Case > gen_dfs()
     {
-        const long parts = std::max( 1L, verif::opt_int( "parts", 1 ) );
-        const long part  = static_cast< long >( ( verif::Session::get().seed + 999 ) % 1000 ) % parts;  // the driver gives worker k the seed s*1000+k+1
-        auto       mine  = std::make_shared< std::vector< Case > >();
-        const auto all   = dfs_space();
-        for ( std::size_t i = 0; i != all.size(); ++i )
-            if ( static_cast< long >( i % parts ) == part )
-                mine->push_back( all[ i ] );
-        auto pos = std::make_shared< std::size_t >( 0 );
-        verif::Session::get().classes[ verif::cat( "dfs-space-size-", all.size(), "-parts-", parts ) ] += 0;
-        return rc::Gen< Case >( [ = ]( const rc::Random&, int ) {
-            Case c;
-            if ( *pos < mine->size() )
-            {
-                c = ( *mine )[ ( *pos )++ ];
-                if ( *pos == mine->size() )
-                    verif::Session::get().classes[ verif::cat( "dfs-part-", part, "-of-", parts, "-complete" ) ] += 1;
-            }
-            else
-            {
-                c.dfs    = 1;
-                c.pushes = c.pops = 0;
-            }
-            return rc::shrinkable::just( c );
-        } );
+        Case padding;
+        padding.dfs    = 1;
+        padding.pushes = padding.pops = 0;
+        return verif::sched::enumerate_gen( dfs_space(), padding );
     }
 
     rc::Gen< Case > gen_case()
